@@ -177,23 +177,31 @@ def hexUpperDigit (n : Nat) : Nat := if n < 10 then 48 + n else 55 + n
 def hexTextLower (b : Bytes) : Text := hexlify b
 def hexTextUpper (b : Bytes) : Text := b.flatMap (fun x => [hexUpperDigit (x / 16 % 16), hexUpperDigit (x % 16)])
 
+def isTwoByteTag (t : Nat) : Bool := t == 0x9f || t == 0x5f
+
+/-- the tag at the head of the remaining ICC data: one byte, or two when it starts with 9f / 5f -/
+def iccTag : Bytes → Bytes
+  | [] => []
+  | t0 :: rest => if isTwoByteTag t0 then (t0 :: rest).take 2 else [t0]
+
+/-- what follows the tag -/
+def iccAfter : Bytes → Bytes
+  | [] => []
+  | t0 :: rest => if isTwoByteTag t0 then (t0 :: rest).drop 2 else rest
+
 /-- `_icc_to_dict` tag walk.  `struct.unpack(">B", b'')` at the end of the field is a struct.error,
     which the caller turns into the library error. -/
 def iccWalk : Nat → Bytes → Dict → Outcome Dict
   | 0, _, _ => .diverge
   | fuel + 1, b, acc =>
-    match b with
-    | [] => .ok acc
-    | t0 :: rest =>
-      let two := t0 == 0x9f || t0 == 0x5f
-      let tagBytes := if two then b.take 2 else [t0]
-      let after := if two then b.drop 2 else rest
-      if tagBytes == [0] then .ok acc
-      else
-        match after with
-        | [] => .escape .structError
-        | len :: body =>
-          iccWalk fuel (body.drop len) (Dict.set acc (.tag (hexTextUpper tagBytes)) (.str (hexTextLower (body.take len))))
+    if b.isEmpty then .ok acc
+    else if iccTag b == [0] then .ok acc
+    else
+      match iccAfter b with
+      | [] => .escape .structError
+      | len :: body =>
+        iccWalk fuel (body.drop len)
+          (Dict.set acc (.tag (hexTextUpper (iccTag b))) (.str (hexTextLower (body.take len))))
 
 def iccToDict (b : Bytes) : Outcome Dict :=
   iccWalk (b.length + 1) b [(.iccData, .str (hexTextLower b))]
@@ -221,49 +229,58 @@ def isValueOrStructError : ExcKind → Bool
   | .structError => true
   | _ => false
 
-/-- `_iso8583_to_field`: returns the entries for this element and the message increment -/
-def decodeField (env : Env) (bit : Nat) (f : FieldCfg) (data : Bytes) : Outcome (Dict × Nat) := do
-  let ls := f.prefixLen
-  let flen ←
-    if ls = 0 then (.ok f.length : Outcome Nat)
-    else
-      match env.codec.decode (data.take ls) with
-      | none => .dataError
-      | some s =>
-        match pyInt env.classes s with
-        | none => .dataError
-        | some (.negSucc _) => .dataError
-        | some (.ofNat n) => .ok n
-  let raw := (data.drop ls).take flen
-  if f.proc == .icc then
-    -- binary field: no text decoding; typed conversion applies to the bytes only for `str`
-    let _ ← (match f.pytype with
-      | .str => (.ok () : Outcome Unit)
-      | _ => .escape .typeError)
-    let sub ← (iccToDict raw).catchAs isValueOrStructError
-    .ok (Dict.update [(Key.de bit, Val.bytes raw)] sub, flen + ls)
+/-- the declared length of an element: the configured width, or the parsed length prefix
+    (undecodable / non-numeric / negative prefix → library error) -/
+def fieldLength (env : Env) (f : FieldCfg) (data : Bytes) : Outcome Nat :=
+  if f.prefixLen = 0 then .ok f.length
   else
-    match env.codec.decode raw with
+    match env.codec.decode (data.take f.prefixLen) with
     | none => .dataError
-    | some text =>
-      let text := match f.proc with
-        | .pan => Card.mask text 42
-        | .panPrefix => Card.panPrefix text
-        | _ => text
-      let v ← (stringToPyType env f text).catchAs isValueError
-      let base : Dict := [(Key.de bit, v)]
-      match f.proc with
-      | .pds =>
-        match v with
-        | .str t =>
-          let sub ← (pdsToDict env.classes t).catchAs isValueOrStructError
-          .ok (Dict.update base sub, flen + ls)
-        | _ => .escape .typeError
-      | .de43 =>
-        match v with
-        | .str t => .ok (Dict.update base (env.de43 bit t), flen + ls)
-        | _ => .escape .typeError
-      | _ => .ok (base, flen + ls)
+    | some s =>
+      match pyInt env.classes s with
+      | none => .dataError
+      | some (.negSucc _) => .dataError
+      | some (.ofNat n) => .ok n
+
+/-- ICC element: bytes kept as they are, TLV walk for the derived entries -/
+def decodeIcc (bit : Nat) (f : FieldCfg) (raw : Bytes) : Outcome Dict :=
+  match f.pytype with
+  | .str =>
+    ((iccToDict raw).catchAs isValueOrStructError).bind (fun sub =>
+      .ok (Dict.update [(Key.de bit, Val.bytes raw)] sub))
+  | _ => .escape .typeError
+
+/-- the processor-specific derived entries for a decoded (typed) value -/
+def derived (env : Env) (bit : Nat) (f : FieldCfg) (v : Val) : Outcome Dict :=
+  match f.proc with
+  | .pds =>
+    match v with
+    | .str t => (pdsToDict env.classes t).catchAs isValueOrStructError
+    | _ => .escape .typeError
+  | .de43 =>
+    match v with
+    | .str t => .ok (env.de43 bit t)
+    | _ => .escape .typeError
+  | _ => .ok []
+
+/-- text element: decode, mask / prefix, typed conversion, derived entries -/
+def decodeTextField (env : Env) (bit : Nat) (f : FieldCfg) (raw : Bytes) : Outcome Dict :=
+  match env.codec.decode raw with
+  | none => .dataError
+  | some text =>
+    let text' := match f.proc with
+      | .pan => Card.mask text 42
+      | .panPrefix => Card.panPrefix text
+      | _ => text
+    ((stringToPyType env f text').catchAs isValueError).bind (fun v =>
+      (derived env bit f v).bind (fun sub => .ok (Dict.update [(Key.de bit, v)] sub)))
+
+/-- `_iso8583_to_field`: returns the entries for this element and the message increment -/
+def decodeField (env : Env) (bit : Nat) (f : FieldCfg) (data : Bytes) : Outcome (Dict × Nat) :=
+  (fieldLength env f data).bind (fun flen =>
+    let raw := (data.drop f.prefixLen).take flen
+    (if f.proc == .icc then decodeIcc bit f raw else decodeTextField env bit f raw).bind (fun d =>
+      .ok (d, flen + f.prefixLen)))
 
 /-- the bit loop of `_iso8583_to_dict` over the present bits in ascending order -/
 def decodeBits (env : Env) (cfg : Config) : List Nat → Bytes → Dict → Nat → Outcome (Dict × Nat)
@@ -272,39 +289,39 @@ def decodeBits (env : Env) (cfg : Config) : List Nat → Bytes → Dict → Nat 
     match cfg.get bit with
     | none => .dataError
     | some f =>
-      match decodeField env bit f (data.drop ptr) with
-      | .ok (d, inc) => decodeBits env cfg bits data (Dict.update acc d) (ptr + inc)
-      | .dataError => .dataError
-      | .escape k => .escape k
-      | .diverge => .diverge
+      (decodeField env bit f (data.drop ptr)).bind (fun r =>
+        decodeBits env cfg bits data (Dict.update acc r.1) (ptr + r.2))
 
 /-- bits 2..128 flagged in a 16-byte bitmap -/
 def presentBits (bitmap : Bytes) : List Nat :=
   let bits := bitsOfBytes bitmap
   (List.range 127).filterMap (fun i => if bits.getD (i + 1) false then some (i + 2) else none)
 
-/-- `loads` / `_iso8583_to_dict` -/
-def decode (env : Env) (cfg : Config) (hexBitmap : Bool) (msg : Bytes) : Outcome Dict :=
+/-- header of a message: MTI text, 16-byte binary bitmap, message data.
+    Short input (struct.error), non-hex hex-bitmap (binascii.Error), undecodable or non-numeric MTI
+    are all the library error. -/
+def decodeHeader (env : Env) (hexBitmap : Bool) (msg : Bytes) : Outcome (Text × Bytes × Bytes) :=
   let hdr := if hexBitmap then 36 else 20
-  if msg.length < hdr then .dataError        -- struct.error → library error
+  if msg.length < hdr then .dataError
   else
-    let mtiB := msg.take 4
-    let bitmapRaw := (msg.drop 4).take (hdr - 4)
-    let data := msg.drop hdr
-    match (if hexBitmap then unhexlify? bitmapRaw else some bitmapRaw) with
-    | none => .dataError                       -- binascii.Error → library error
+    match (if hexBitmap then unhexlify? ((msg.drop 4).take 32) else some ((msg.drop 4).take 16)) with
+    | none => .dataError
     | some bitmap =>
-      match env.codec.decode mtiB with
+      match env.codec.decode (msg.take 4) with
       | none => .dataError
       | some mti =>
         match pyInt env.classes mti with
         | none => .dataError
-        | some _ =>
-          match decodeBits env cfg (presentBits bitmap) data [(.mti, .str mti)] 0 with
-          | .ok (d, ptr) => if ptr = data.length then .ok d else .dataError
-          | .dataError => .dataError
-          | .escape k => .escape k
-          | .diverge => .diverge
+        | some _ => .ok (mti, bitmap, msg.drop hdr)
+
+/-- the element loop and the final "whole message consumed" check -/
+def decodeBody (env : Env) (cfg : Config) (mti : Text) (bitmap data : Bytes) : Outcome Dict :=
+  (decodeBits env cfg (presentBits bitmap) data [(.mti, .str mti)] 0).bind (fun r =>
+    if r.2 = data.length then .ok r.1 else .dataError)
+
+/-- `loads` / `_iso8583_to_dict` -/
+def decode (env : Env) (cfg : Config) (hexBitmap : Bool) (msg : Bytes) : Outcome Dict :=
+  (decodeHeader env hexBitmap msg).bind (fun h => decodeBody env cfg h.1 h.2.1 h.2.2)
 
 /-! ## encode -/
 
